@@ -96,6 +96,37 @@ def gen(ctx):
             out.append(s)
     return out
 
+FRAMES = ['{%s}', '\\textbf{%s}', '\\emph{%s}', '\\section{%s}', '\\subsection*{%s}', '\\chapter{%s}', '\\title{%s}', '\\paragraph{%s}',
+          '\\footnote{%s}', '\\caption{%s}', '\\textcolor{red}{%s}', '\\begin{itemize}\\item[%s] Qz\\end{itemize}', '\\begin{quote}%s\\end{quote}',
+          '\\framebox{%s}', '\\LTadd{%s}', '\\newcommand{\\qq}[1]{#1}\\qq{%s}', '\\begin{theorem}[%s] Qz\\end{theorem}']
+
+def framed_cases(rng):
+    """the documented sequences inside arguments: headings, footnotes, captions, item labels, pass-through and user macros"""
+    import impl
+    sp = dict(impl.load().parameters.Parameters('en').special_tokens)
+    out = []
+    for k in DOCUMENTED:
+        if k not in sp:
+            continue
+        for fr in FRAMES:
+            a = 'Q' + ''.join(rng.choice('abcdefgh') for _ in range(3)); b = 'Q' + ''.join(rng.choice('klmnopqr') for _ in range(3))
+            inner = a + rng.choice([' ', '']) + k + (' ' if k[-1:].isalpha() else rng.choice([' ', ''])) + b
+            out.append({'src': 'Qpre ' + fr % inner + ' Qpost', 'opts': {'pack': '*', 'lang': 'en'}, 'multi': False, 'kind': 'framed',
+                        'seq': k, 'repl': sp[k], 'a': a, 'b': b})
+    return out
+
+def judge_framed(c, r):
+    if r['outcome'] != 'ok':
+        return []
+    t = r['txt']
+    i, j = t.find(c['a']), t.find(c['b'])
+    if i < 0 or j < 0 or j < i:
+        return ['special sequence %r inside %r: the words around it are lost or reordered: %r' % (c['seq'], c['src'], t)]
+    between = t[i + len(c['a']):j].strip(' \n\t')
+    if between != c['repl'].strip(' '):
+        return ['special sequence %r inside %r is rendered %r, the table says %r (output %r)' % (c['seq'], c['src'], between, c['repl'], t)]
+    return []
+
 def run(ctx):
     srcs = gen(ctx)
     cases = [{'src': s, 'opts': {'pack': ctx.rng.choice(['*', ''])}, 'multi': False, 'kind': 'prose'} for s in srcs]
@@ -119,10 +150,20 @@ def run(ctx):
             ctx.violation(fails[0], src=c['src'], opts=c['opts'])
         if len(ctx.samples) < 5 and len(c['src']) > 20:
             ctx.sample({'src': c['src'], 'out': r.get('txt')})
-    corr.t2t(ctx, cases, results, limit=ctx.scale(1500, 20000))
+    fc = framed_cases(rng)
+    fres = ctx.pmap(t2t.run_case, fc)
+    for c, r in zip(fc, fres):
+        ctx.case(c['src']); ctx.count('sequence_in_argument')
+        f = judge_framed(c, r)
+        if f:
+            ctx.violation(f[0], src=c['src'], opts=c['opts'], framed={k: c[k] for k in ('seq', 'repl', 'a', 'b')})
+    corr.t2t(ctx, cases + fc, results + fres, limit=ctx.scale(1500, 20000) + len(fc))
     corr.scan(ctx, [c['src'] for c in cases[:ctx.scale(500, 5000)]])
 
 def judge_witness(w):
+    if w.get('framed'):
+        c = dict({'src': w['src'], 'opts': w.get('opts') or {}, 'multi': False}, **w['framed'])
+        return judge_framed(c, t2t.run_case(c))
     c = {'src': w['src'], 'opts': w.get('opts') or {}, 'multi': False}
     return judge(c, t2t.run_case(c))
 
